@@ -77,6 +77,7 @@ type c14WorldSpec struct {
 	Public    bool   `json:"public"`
 	Consensus string `json:"consensus"` // "dpos" | "raft"
 	Fork      int32  `json:"fork"`      // version of every block of this world (0, 2..5)
+	LowMin    bool   `json:"lowmin"`    // a majority staker ("whale") voted STAKINGMIN down to 1 aer; "tiny" stakes 50 aer
 }
 
 // one abstract case = context + shape + the specification's outcome per layer
@@ -152,19 +153,19 @@ const (
 	c14BestNo    = uint64(200000) // best block of every world; set-up happens in blocks 1, 2 and c14BestNo
 )
 
-var c14SenderClasses = []string{"fresh", "rich", "stakedOld", "stakedNew", "votedOld", "votedNew", "nameOwner", "other", "admin"}
+var c14SenderClasses = []string{"fresh", "rich", "stakedOld", "stakedNew", "votedOld", "votedNew", "nameOwner", "other", "admin", "whale", "tiny"}
 
 // ---------------------------------------------------------------- world
 
 type c14World struct {
-	spec    c14WorldSpec
-	cfg     *cfg.Config
-	sdb     *state.ChainStateDB
-	root    []byte
-	chainID []byte
-	accts   map[string]*c14Acct
+	spec     c14WorldSpec
+	cfg      *cfg.Config
+	sdb      *state.ChainStateDB
+	root     []byte
+	chainID  []byte
+	accts    map[string]*c14Acct
 	bps      []string
-	contract []byte   // address of a deployed contract
+	contract []byte // address of a deployed contract
 	dir      string
 	setup    []string // log of the set-up transactions and their outcome
 }
@@ -390,6 +391,14 @@ func c14NewWorld(spec c14WorldSpec) (*c14World, error) {
 		step(no, who, types.AergoSystem, `{"Name":"v1voteDAO","Args":["BPCOUNT","3"]}`, zero)
 	}
 	vote(2, "votedOld")
+	if spec.LowMin {
+		step(1, "whale", types.AergoSystem, `{"Name":"v1stake"}`, new(big.Int).Mul(min, big.NewInt(100)))
+		step(2, "whale", types.AergoSystem, `{"Name":"v1voteDAO","Args":["STAKINGMIN","1"]}`, zero)
+		step(3, "tiny", types.AergoSystem, `{"Name":"v1stake"}`, big.NewInt(50))
+		if system.GetStakingMinimum().Cmp(big.NewInt(1)) != 0 {
+			return nil, fmt.Errorf("world %s: the staking minimum was not voted down (%s): %v", spec.Name, system.GetStakingMinimum(), w.setup)
+		}
+	}
 	step(c14BestNo, "stakedNew", types.AergoSystem, `{"Name":"v1stake"}`, twice)
 	vote(c14BestNo, "votedNew")
 	return w, nil
@@ -515,6 +524,10 @@ type c14Ctx struct {
 }
 
 // c14Arg turns an argument class into JSON text.
+// pick: one of the alternatives, a different one at every position of an argument list (lists are shorter than
+// the alternatives of the classes whose texts must differ), varying from case to case through salt
+func (x *c14Ctx) pick(xs ...string) string { return xs[(x.pos+x.salt)%len(xs)] }
+
 func c14Arg(x *c14Ctx, class string) string {
 	w, rng := x.w, x.rng
 	addr := func(a []byte) string { return c14JS(types.EncodeAddress(a)) }
@@ -535,7 +548,7 @@ func c14Arg(x *c14Ctx, class string) string {
 	case "pidlong": // valid multihash, 40..100 bytes
 		return c14JS(base58.Encode(c14Identity(38+rng.Intn(60), rng)))
 	case "b58bad":
-		return c14JS(c14Rand(rng, c14B58, 10+rng.Intn(30)) + c14Pick(rng, "0", "O", "I", "l", "-", " ", "é"))
+		return c14JS(c14Rand(rng, c14B58, 10+rng.Intn(30)) + x.pick("0", "O", "I", "l", "-", " ", "é"))
 	case "b58raw": // base58 text that is not a multihash
 		return c14JS(base58.Encode([]byte{0x12, 0x20, 0x01, 0x02, byte(rng.Intn(256))}))
 	// ---- proposal ids and candidates (v1voteDAO)
@@ -546,19 +559,19 @@ func c14Arg(x *c14Ctx, class string) string {
 	case "daoid2":
 		return []string{`"STAKINGMIN"`, `"GASPRICE"`, `"NAMEPRICE"`}[(x.pos+x.salt)%3]
 	case "daoidbad":
-		return c14Pick(rng, `"NOSUCHID"`, `"BPCOUNT "`, `"BP"`, `"voteBP"`)
+		return x.pick(`"NOSUCHID"`, `"BPCOUNT "`, `"BP"`, `"voteBP"`)
 	case "nstr":
-		return c14Pick(rng, `"3"`, `"1"`, `"23"`, `"100"`)
+		return x.pick(`"3"`, `"1"`, `"23"`, `"100"`)
 	case "nstr0":
-		return c14Pick(rng, `"0"`, `"00"`, `"-0"`)
+		return x.pick(`"0"`, `"00"`, `"-0"`)
 	case "nstrbig":
-		return c14Pick(rng, `"500000000000000000000000001"`, c14JS("9"+c14Rand(rng, "0123456789", 30+rng.Intn(70))), c14JS("9"+c14Rand(rng, "0123456789", 100+rng.Intn(3000))))
+		return x.pick(`"500000000000000000000000001"`, c14JS("9"+c14Rand(rng, "0123456789", 30+rng.Intn(70))), c14JS("9"+c14Rand(rng, "0123456789", 100+rng.Intn(3000))))
 	case "nstr101": // over the limit of BPCOUNT only
-		return c14Pick(rng, `"101"`, `"1000"`, `"500000000000000000000000000"`)
+		return x.pick(`"101"`, `"1000"`, `"500000000000000000000000000"`)
 	case "nstrbad":
-		return c14Pick(rng, `"3x"`, `" 3"`, `"1e3"`, `"0x10"`, `"1.5"`, `"٣"`, `"+"`, `"-"`)
+		return x.pick(`"3x"`, `" 3"`, `"1e3"`, `"0x10"`, `"1.5"`, `"٣"`, `"+"`, `"-"`)
 	case "nstrneg":
-		return c14Pick(rng, `"-1"`, `"-100"`)
+		return x.pick(`"-1"`, `"-100"`, `"-7"`)
 	// ---- names and addresses
 	case "name12":
 		return c14JS(c14Name(rng, 12))
@@ -569,9 +582,9 @@ func c14Arg(x *c14Ctx, class string) string {
 	case "nameB":
 		return c14JS(c14NameOther)
 	case "namebad": // 12 bytes, characters allowed neither in a name nor in a name-address
-		return c14Pick(rng, c14JS("abcdefghijk_"), c14JS("abcdefghiék"), c14JS("abcdefghijk\x00"), c14JS("ab cdefghijk"), c14JS("abcdefghij-k"))
+		return x.pick(c14JS("abcdefghijk_"), c14JS("abcdefghiék"), c14JS("abcdefghijk\x00"), c14JS("ab cdefghijk"), c14JS("abcdefghij-k"))
 	case "namedot": // 12 bytes with a dot: not a name, but accepted by types.DecodeAddress
-		return c14Pick(rng, c14JS("abc.efghijkl"), c14JS(".bcdefghijkl"), c14JS("abcdefghijk."))
+		return x.pick(c14JS("abc.efghijkl"), c14JS(".bcdefghijkl"), c14JS("abcdefghijk."))
 	case "nameshort":
 		return c14JS(c14Name(rng, 1+rng.Intn(11)))
 	case "namelong":
@@ -587,16 +600,16 @@ func c14Arg(x *c14Ctx, class string) string {
 	case "addrbad": // right length, broken checksum / alphabet
 		s := types.EncodeAddress(w.accts["rich"].addr)
 		i := 1 + rng.Intn(len(s)-1)
-		return c14JS(s[:i] + c14Pick(rng, "1", "z", "0", "O") + s[i+1:])
+		return c14JS(s[:i] + x.pick("1", "z", "0", "O") + s[i+1:])
 	case "addrver": // valid base58check, wrong version byte or wrong length
-		return c14JS(c14Pick(rng, types.EncodePrivKey(w.accts["rich"].addr[:32]), c14B58Check(0x42, w.accts["rich"].addr[:20]),
+		return c14JS(x.pick(types.EncodePrivKey(w.accts["rich"].addr[:32]), c14B58Check(0x42, w.accts["rich"].addr[:20]),
 			c14B58Check(0x42, append(append([]byte{}, w.accts["rich"].addr...), 1)), c14B58Check(0x41, w.accts["rich"].addr)))
 	case "special":
-		return c14Pick(rng, `"aergo.system"`, `"aergo.name"`, `"aergo.enterprise"`, `"aergo.vault"`)
+		return x.pick(`"aergo.system"`, `"aergo.name"`, `"aergo.enterprise"`, `"aergo.vault"`)
 	case "empty":
 		return `""`
 	case "str":
-		return c14Pick(rng, `"hello"`, `"null"`, `"\u0000"`, `"`+c14Rand(rng, c14Alnum, 200)+`"`)
+		return x.pick(`"hello"`, `"null"`, `"\u0000"`, `"`+c14Rand(rng, c14Alnum, 200)+`"`)
 	case "dup":
 		if x.prev == "" {
 			return `"dup"`
@@ -604,13 +617,13 @@ func c14Arg(x *c14Ctx, class string) string {
 		return x.prev
 	// ---- non-strings
 	case "num":
-		return c14Pick(rng, "1", "0", "-5", "1.5", "3", "39", "12345678901234567890")
+		return x.pick("1", "0", "-5", "1.5", "3", "39", "12345678901234567890")
 	case "numlarge":
-		return c14Pick(rng, "1e30", "1e308", "-1e308", "18446744073709551616")
+		return x.pick("1e30", "1e308", "-1e308", "18446744073709551616")
 	case "numbig": // not representable as float64: json.Unmarshal into interface{} fails
-		return c14Pick(rng, "1e400", "-1e999")
+		return x.pick("1e400", "-1e999")
 	case "bool":
-		return c14Pick(rng, "true", "false")
+		return x.pick("true", "false")
 	case "true":
 		return "true"
 	case "false":
@@ -620,9 +633,9 @@ func c14Arg(x *c14Ctx, class string) string {
 	case "null":
 		return "null"
 	case "obj":
-		return c14Pick(rng, "{}", `{"a":1}`, `{"_bignum":"3"}`, `{"command":"add"}`)
+		return x.pick("{}", `{"a":1}`, `{"_bignum":"3"}`, `{"command":"add"}`)
 	case "arr":
-		return c14Pick(rng, "[]", `["x"]`, `[1,[2,[3]]]`, `[null]`)
+		return x.pick("[]", `["x"]`, `[1,[2,[3]]]`, `[null]`)
 	// ---- enterprise configuration keys and values
 	case "kP2PW":
 		return `"P2PWHITE"`
@@ -633,52 +646,52 @@ func c14Arg(x *c14Ctx, class string) string {
 	case "kRPC":
 		return `"RPCPERMISSIONS"`
 	case "klc":
-		return c14Pick(rng, `"p2pwhite"`, `"P2pWhite"`, `"p2pWHITE"`)
+		return x.pick(`"p2pwhite"`, `"P2pWhite"`, `"p2pWHITE"`)
 	case "kbad":
-		return c14Pick(rng, `"NOKEY"`, `"PERMISSIONS"`, `"admins"`, `"p2p.white"`)
+		return x.pick(`"NOKEY"`, `"PERMISSIONS"`, `"admins"`, `"p2p.white"`)
 	case "vP2P":
-		return c14Pick(rng, c14JS(`{"peerid":"`+w.bps[1]+`"}`), c14JS(`{"cidr":"172.21.3.35/24"}`), c14JS(`{"address":"10.0.0.`+fmt.Sprint(rng.Intn(250))+`"}`),
+		return x.pick(c14JS(`{"peerid":"`+w.bps[1]+`"}`), c14JS(`{"cidr":"172.21.3.35/24"}`), c14JS(`{"address":"10.0.0.`+fmt.Sprint(rng.Intn(250))+`"}`),
 			c14JS(`{"peerid":"`+w.bps[2]+`","address":"::1"}`))
 	case "vP2Pbad":
-		return c14Pick(rng, c14JS(`{"peerid":"xx"}`), c14JS(`{}`), c14JS(`{"address":"1.2.3.4","cidr":"1.2.3.0/24"}`), c14JS(`{"cidr":"1.2.3.4/99"}`),
+		return x.pick(c14JS(`{"peerid":"xx"}`), c14JS(`{}`), c14JS(`{"address":"1.2.3.4","cidr":"1.2.3.0/24"}`), c14JS(`{"cidr":"1.2.3.4/99"}`),
 			c14JS(`not json at all`), c14JS(`{"peerid":1}`), c14JS(`[ ]`), c14JS(`null `), c14JS(`{"address":"999.1.1.1"}`))
 	case "vACC":
 		return addr(w.accts["rich"].addr)
 	case "vACCadmin":
 		return addr(w.accts["admin"].addr)
 	case "vRPC":
-		return c14Pick(rng, `"dGVzdDI=:RW"`, `"YWJj:W"`, `"YWJj:R"`, `":W"`)
+		return x.pick(`"dGVzdDI=:RW"`, `"YWJj:W"`, `"YWJj:R"`, `":W"`)
 	case "vRPCro":
-		return c14Pick(rng, `"cm8=:R"`, `"cm8y:"`)
+		return x.pick(`"cm8=:R"`, `"cm8y:"`, `"cm8z:r"`)
 	case "vRPCbad":
-		return c14Pick(rng, `"nocolon"`, `"a:b:c"`, `"@@@:RW"`, `":"`, `"::"`)
+		return x.pick(`"no colon!"`, `"a:b:c"`, `"@@@:RW"`, `":"`, `"::"`)
 	case "bslash":
-		return c14Pick(rng, `"a\\b"`, `"\\"`, `"{\"peerid\":\"\\\\\"}"`)
+		return x.pick(`"a\\b"`, `"\\"`, `"{\"peerid\":\"\\\\\"}"`)
 	// ---- changeCluster request objects
 	case "ccAdd":
 		return `{"command":"add","name":"n` + fmt.Sprint(rng.Intn(100)) + `","address":"/ip4/10.0.0.1/tcp/7846","peerid":"` + w.bps[rng.Intn(3)] + `"}`
 	case "ccAddDns":
 		return `{"command":"add","name":"n","address":"/dns/node.example/tcp/1","peerid":"` + w.bps[0] + `"}`
 	case "ccAddMiss":
-		return c14Pick(rng, `{"command":"add"}`, `{"command":"add","name":"n"}`, `{"command":"add","name":"n","address":"/ip4/1.1.1.1/tcp/1"}`)
+		return x.pick(`{"command":"add"}`, `{"command":"add","name":"n"}`, `{"command":"add","name":"n","address":"/ip4/1.1.1.1/tcp/1"}`)
 	case "ccAddType":
-		return c14Pick(rng, `{"command":"add","name":1,"address":"/ip4/1.1.1.1/tcp/1","peerid":"x"}`, `{"command":"add","name":"n","address":null,"peerid":"x"}`,
+		return x.pick(`{"command":"add","name":1,"address":"/ip4/1.1.1.1/tcp/1","peerid":"x"}`, `{"command":"add","name":"n","address":null,"peerid":"x"}`,
 			`{"command":"add","name":"n","address":"/ip4/1.1.1.1/tcp/1","peerid":{}}`, `{"command":"add","name":[],"address":[],"peerid":[]}`)
 	case "ccAddBadPeer":
-		return c14Pick(rng, `{"command":"add","name":"n","address":"/ip4/1.1.1.1/tcp/1","peerid":"notapeer"}`, `{"command":"add","name":"n","address":"/ip4/1.1.1.1/tcp/1","peerid":""}`)
+		return x.pick(`{"command":"add","name":"n","address":"/ip4/1.1.1.1/tcp/1","peerid":"notapeer"}`, `{"command":"add","name":"n","address":"/ip4/1.1.1.1/tcp/1","peerid":""}`)
 	case "ccAddBadAddr":
-		return c14Pick(rng, `{"command":"add","name":"n","address":"1.1.1.1:80","peerid":"`+w.bps[0]+`"}`, `{"command":"add","name":"n","address":"","peerid":"`+w.bps[0]+`"}`,
+		return x.pick(`{"command":"add","name":"n","address":"1.1.1.1:80","peerid":"`+w.bps[0]+`"}`, `{"command":"add","name":"n","address":"","peerid":"`+w.bps[0]+`"}`,
 			`{"command":"add","name":"n","address":"/ip4/999.1.1.1/tcp/1","peerid":"`+w.bps[0]+`"}`)
 	case "ccRem":
-		return c14Pick(rng, `{"command":"remove","id":"dd44cf1a06727dc5"}`, `{"command":"remove","id":"0"}`, `{"command":"remove","id":"ffffffffffffffff"}`)
+		return x.pick(`{"command":"remove","id":"dd44cf1a06727dc5"}`, `{"command":"remove","id":"0"}`, `{"command":"remove","id":"ffffffffffffffff"}`)
 	case "ccRemBad":
-		return c14Pick(rng, `{"command":"remove","id":"xyz"}`, `{"command":"remove","id":""}`, `{"command":"remove","id":"10000000000000000"}`, `{"command":"remove","id":"-1"}`)
+		return x.pick(`{"command":"remove","id":"xyz"}`, `{"command":"remove","id":""}`, `{"command":"remove","id":"10000000000000000"}`, `{"command":"remove","id":"-1"}`)
 	case "ccRemType":
-		return c14Pick(rng, `{"command":"remove","id":1}`, `{"command":"remove","id":null}`, `{"command":"remove"}`, `{"command":"remove","id":1e400}`)
+		return x.pick(`{"command":"remove","id":1}`, `{"command":"remove","id":null}`, `{"command":"remove"}`, `{"command":"remove","id":1e400}`)
 	case "ccCmdBad":
-		return c14Pick(rng, `{"command":"update"}`, `{"command":""}`, `{"command":"ADD"}`)
+		return x.pick(`{"command":"update"}`, `{"command":""}`, `{"command":"ADD"}`)
 	case "ccCmdType":
-		return c14Pick(rng, `{"command":1}`, `{"command":null}`, `{}`, `{"Command":"add"}`, `{"command":["add"]}`)
+		return x.pick(`{"command":1}`, `{"command":null}`, `{}`, `{"Command":"add"}`, `{"command":["add"]}`)
 	}
 	panic("c14 harness: unknown argument class " + class)
 }
@@ -847,7 +860,7 @@ func c14Build(w *c14World, c *c14Case, nonce0 uint64, rng *rand.Rand) (*c14Built
 		return nil, fmt.Errorf("unknown chain id class %q", c.Ci)
 	}
 	// ---- payload
-	x := &c14Ctx{w: w, sender: sender, rng: rng, salt: rng.Intn(12)}
+	x := &c14Ctx{w: w, sender: sender, rng: rng, salt: rng.Intn(1 << 16)}
 	args := func() string {
 		parts := make([]string, len(c.Ar))
 		for i, a := range c.Ar {
@@ -975,6 +988,8 @@ type c14Outcome struct {
 	newRoot []byte
 	slow    time.Duration
 	rcpt    string // governance recipient of the delivered transaction ("" otherwise)
+	op      string // canonical call of a governance transaction (see c14CanonOp), transaction type otherwise
+	votes   bool   // an aergo.system call other than v1stake: its execution may change the voting power rank and the parameters
 }
 
 func c14ExecClass(r c14ExecResult) string {
@@ -1010,6 +1025,14 @@ func c14Run(w *c14World, mp *MemPool, root []byte, bestNo uint64, wire []byte, c
 	tx := decode()
 	if b := tx.GetTx().GetBody(); b != nil && b.GetType() == types.TxType_GOVERNANCE {
 		o.rcpt = string(b.GetRecipient())
+		var ci types.CallInfo
+		bad := json.Unmarshal(b.GetPayload(), &ci) != nil
+		o.op = c14CanonOp(o.rcpt, ci.Name, bad)
+		if o.rcpt == types.AergoSystem {
+			o.votes = bad || types.GetOpSysTx(ci.Name) != types.Opstake
+		}
+	} else if b != nil {
+		o.op = b.GetType().String()
 	}
 	var err error
 	if p := timed(func() {
@@ -1052,7 +1075,7 @@ func c14Run(w *c14World, mp *MemPool, root []byte, bestNo uint64, wire []byte, c
 	o.layer = "exec"
 	restore := func(class string) {
 		system.CommitParams(false)
-		if o.rcpt == types.AergoSystem && class != "skip" {
+		if o.votes && class != "skip" {
 			w.resetGlobals(root)
 		}
 	}
@@ -1235,9 +1258,28 @@ func c14Hex(b []byte) string {
 	return hex.EncodeToString(b)
 }
 
-// the signature of a panic: where (layer, innermost function of the node's code) and what kind
+// the signature of a panic: where (layer, innermost function of the node's code), what kind, and for which call
 func c14Sig(o *c14Outcome) map[string]interface{} {
-	return map[string]interface{}{"kind": "panic", "layer": o.panicAt, "site": o.panic.site, "panic": o.panic.class}
+	return map[string]interface{}{"kind": "panic", "layer": o.panicAt, "site": o.panic.site, "panic": o.panic.class, "op": o.op}
+}
+
+var c14KnownOps = map[string]bool{types.NameCreate: true, types.NameUpdate: true, types.SetContractOwner: true,
+	enterprise.AppendAdmin: true, enterprise.RemoveAdmin: true, enterprise.SetConf: true, enterprise.AppendConf: true,
+	enterprise.RemoveConf: true, enterprise.EnableConf: true, enterprise.ChangeCluster: true}
+
+// c14CanonOp names the call the way the code dispatches it: aergo.system maps every unknown name to v1voteBP
+// (types.GetOpSysTx); the other governance accounts match the name exactly.
+func c14CanonOp(rcpt, name string, unparsable bool) string {
+	if unparsable {
+		return "unparsable"
+	}
+	if rcpt == types.AergoSystem {
+		return types.GetOpSysTx(name).Cmd()
+	}
+	if c14KnownOps[name] {
+		return name
+	}
+	return "other"
 }
 
 type c14Drift struct {
@@ -1249,17 +1291,17 @@ type c14Drift struct {
 
 // c14Partial is what one worker process reports back.
 type c14Partial struct {
-	Keys     []string               `json:"keys"`  // one per evaluated (case, variant)
-	Extra    int                    `json:"extra"` // further evaluations (probes, random transactions)
-	Samples  []interface{}          `json:"samples"`
-	Notes    []string               `json:"notes"`
-	Finds    []*c14FindingJ         `json:"finds"`
-	Outcomes map[string]int         `json:"outcomes"`
-	Agree    map[string]int         `json:"agree"`
-	Drift    map[string]*c14Drift   `json:"drift"`
-	Slowest  int64                  `json:"slowest_ns"`
-	SlowCase string                 `json:"slow_case"`
-	Setup    map[string][]string    `json:"setup"`
+	Keys     []string             `json:"keys"`  // one per evaluated (case, variant)
+	Extra    int                  `json:"extra"` // further evaluations (probes, random transactions)
+	Samples  []interface{}        `json:"samples"`
+	Notes    []string             `json:"notes"`
+	Finds    []*c14FindingJ       `json:"finds"`
+	Outcomes map[string]int       `json:"outcomes"`
+	Agree    map[string]int       `json:"agree"`
+	Drift    map[string]*c14Drift `json:"drift"`
+	Slowest  int64                `json:"slowest_ns"`
+	SlowCase string               `json:"slow_case"`
+	Setup    map[string][]string  `json:"setup"`
 }
 
 type c14FindingJ struct {
@@ -1420,7 +1462,9 @@ func TestVerifAdmission(t *testing.T) {
 		for o := range f.Ops {
 			ops = append(ops, o)
 		}
-		sort.Slice(ops, func(i, j int) bool { return len(ops[i]) < len(ops[j]) || (len(ops[i]) == len(ops[j]) && ops[i] < ops[j]) })
+		sort.Slice(ops, func(i, j int) bool {
+			return len(ops[i]) < len(ops[j]) || (len(ops[i]) == len(ops[j]) && ops[i] < ops[j])
+		})
 		if len(ops) > 12 {
 			ops = ops[:12]
 		}
@@ -1541,54 +1585,69 @@ func c14Worker(t *testing.T, in *c14Input, shard int) *c14Partial {
 					if where, p := c14Readers(w, o.newRoot, w.accts[c.S].addr, o.rcpt); p != nil {
 						o2 := o
 						o2.panic, o2.panicAt = p, "post"
-						sig := map[string]interface{}{"kind": "panic", "layer": "post", "site": p.site, "panic": p.class, "reader": where}
+						sig := map[string]interface{}{"kind": "panic", "layer": "post", "site": p.site, "panic": p.class, "reader": where, "op": o.op}
 						finds.add(sig, c.payloadDesc(), c14Rank(c, v), c14Replay(w, c, v, b, &o2, map[string]interface{}{"reader": where}),
 							fmt.Sprintf("after the admitted transaction was executed and its block connected, %s panics at %s (%s): %s\n world %s, sender %s, payload %s\n stack: %s",
 								where, p.site, p.where, p.val, w.spec.Name, c.S, b.descr, strings.Join(p.frames, " <- ")))
 					} else {
-						if o.rcpt == types.AergoSystem {
+						if o.votes {
 							w.resetGlobals(o.newRoot)
 						}
 						c14Chain.set(w, o.newRoot)
 						mp2 := newPool(o.newRoot, c14BestNo+1)
 						for pi := range in.Probes {
 							pc := in.Probes[pi]
-							if c14RcptName(pc.Rc) != o.rcpt {
+							probeRc := c14RcptName(pc.Rc)
+							if pc.Rc == "nameA" || pc.Ac == "nameA" {
+								probeRc = types.AergoName // transfers through the name service
+							}
+							if probeRc != o.rcpt {
 								continue // a governance contract reads only its own storage
 							}
 							whos := []string{c.S}
 							if c.S != "rich" && o.rcpt != types.AergoSystem { // votes and stakes are kept per account
 								whos = append(whos, "rich")
 							}
+							// next block, and (system: waiting periods) more than a day of blocks later
+							heights := []uint64{c14BestNo + 1}
+							if o.votes {
+								heights = append(heights, c14BestNo+1+2*system.StakingDelay)
+							}
 							for _, who := range whos {
-								pc.W, pc.S = c.W, who
-								n0 := nonce[who]
-								if who == c.S {
-									n0++
-								}
-								prng := verifkit.Rng(int64(ci)*131 + int64(v) + int64(pi+1)*7919)
-								pb, err := c14Build(w, &pc, n0, prng)
-								if err != nil {
-									t.Fatalf("probe %d: %v", pi, err)
-								}
-								po := c14Run(w, mp2, o.newRoot, c14BestNo+1, pb.wire, false, false)
-								part.Extra++
-								outcomes["probe:"+po.types+"/"+po.pool+"/"+po.exec]++
-								if po.panic != nil {
-									sig := c14Sig(&po)
-									sig["step"] = "second"
-									finds.add(sig, c.payloadDesc()+" ; "+pc.payloadDesc(), c14Rank(c, v)+"/"+pc.shapeKey(),
-										c14Replay(w, &pc, v, pb, &po, map[string]interface{}{"first_case": c, "first_payload": b.descr, "first_tx_protobuf_hex": c14Hex(b.wire)}),
-										fmt.Sprintf("second transaction panics in layer %s at %s (%s): %s\n first (admitted, executed, block connected): sender %s payload %s\n second: sender %s recipient %s payload %s\n world %s\n stack: %s",
-											po.panicAt, po.panic.site, po.panic.where, po.panic.val, c.S, b.descr, who, pc.Rc, pb.descr, w.spec.Name, strings.Join(po.panic.frames, " <- ")))
-									mp2 = newPool(o.newRoot, c14BestNo+1)
+								for hi, best := range heights {
+									if hi > 0 || mp2.bestBlockInfo.No != best {
+										mp2 = newPool(o.newRoot, best)
+									}
+									pc.W, pc.S = c.W, who
+									n0 := nonce[who]
+									if who == c.S {
+										n0++
+									}
+									prng := verifkit.Rng(int64(ci)*131 + int64(v) + int64(pi+1)*7919)
+									pb, err := c14Build(w, &pc, n0, prng)
+									if err != nil {
+										t.Fatalf("probe %d: %v", pi, err)
+									}
+									po := c14Run(w, mp2, o.newRoot, best, pb.wire, false, false)
+									part.Extra++
+									outcomes["probe:"+po.types+"/"+po.pool+"/"+po.exec]++
+									if po.panic != nil {
+										sig := c14Sig(&po)
+										sig["step"] = "second"
+										sig["after"] = o.op
+										finds.add(sig, c.payloadDesc()+" ; "+pc.payloadDesc(), c14Rank(c, v)+"/"+pc.shapeKey(),
+											c14Replay(w, &pc, v, pb, &po, map[string]interface{}{"first_case": c, "first_payload": b.descr, "first_tx_protobuf_hex": c14Hex(b.wire)}),
+											fmt.Sprintf("second transaction panics in layer %s at %s (%s): %s\n first (admitted, executed, block connected): sender %s payload %s\n second: sender %s recipient %s payload %s\n world %s\n stack: %s",
+												po.panicAt, po.panic.site, po.panic.where, po.panic.val, c.S, b.descr, who, pc.Rc, pb.descr, w.spec.Name, strings.Join(po.panic.frames, " <- ")))
+										mp2 = newPool(o.newRoot, best)
+									}
 								}
 							}
 						}
 					}
 					system.CommitParams(false)
 					if o.rcpt == types.AergoSystem {
-						w.resetGlobals(w.root)
+						w.resetGlobals(w.root) // probes may have voted
 					}
 					c14Chain.set(w, w.root)
 				}
@@ -1643,9 +1702,9 @@ type c14ChainSvc struct {
 	*component.BaseComponent
 }
 
-func (c *c14ChainSvc) BeforeStart()                          {}
-func (c *c14ChainSvc) AfterStart()                           {}
-func (c *c14ChainSvc) BeforeStop()                           {}
+func (c *c14ChainSvc) BeforeStart()                        {}
+func (c *c14ChainSvc) AfterStart()                         {}
+func (c *c14ChainSvc) BeforeStop()                         {}
 func (c *c14ChainSvc) Statistics() *map[string]interface{} { return nil }
 func (c *c14ChainSvc) Receive(context actor.Context) {
 	switch msg := context.Message().(type) {
